@@ -236,7 +236,9 @@ fn main() -> Result<(), Box<dyn std::error::Error>> {
                     // Broadcast that client tasks need to finish
                     let _ = shutdown_tx.send(());
                     let exit_tx = exit_tx.clone();
-                    let _ = drain_tx.send(0).await;
+                    // This loop is the only receiver of the drain channel: never wait for room in it.
+                    // If it is full, the queued pings trigger the same check.
+                    let _ = drain_tx.try_send(0);
 
                     tokio::task::spawn(async move {
                         let mut interval = tokio::time::interval(tokio::time::Duration::from_millis(config.general.shutdown_timeout));
@@ -328,7 +330,9 @@ fn main() -> Result<(), Box<dyn std::error::Error>> {
                     total_clients += client_ping;
 
                     if total_clients == 0 && admin_only {
-                        let _ = exit_tx.send(()).await;
+                        // This loop is also the receiver: if the channel is full
+                        // (the shutdown timer fired), an exit is already pending.
+                        let _ = exit_tx.try_send(());
                     }
                 }
             }
